@@ -30,8 +30,56 @@ def _duplex_new(ctx, a, c):
     return Agg("tuple", [Opaque("duplex client end"), Opaque("duplex server end")])
 
 
+class TokioTcpV:
+    """tokio::net::TcpStream as the environment: getpeername() may fail (a connection reset while it
+    sat in the accept backlog reports ENOTCONN), getsockname() on a valid socket does not"""
+
+
+@model("TcpStream::peer_addr", doc="environment stub: tokio TcpStream::peer_addr -> arbitrary io::Result (ENOTCONN after a reset)")
+def _tcp_peer_addr(ctx, a, c):
+    if ctx.branch(z3.Bool("getpeername_fails"), "getpeername fails"):
+        return Enum("Result", "Err", 1, [Opaque("io::Error(ENOTCONN)")])
+    return Enum("Result", "Ok", 0, [sock_addr(ctx, "peer")])
+
+
+@model("TcpStream::local_addr", doc="environment stub: tokio TcpStream::local_addr -> Ok (getsockname on a valid descriptor)")
+def _tcp_local_addr(ctx, a, c):
+    return Enum("Result", "Ok", 0, [sock_addr(ctx, "local")])
+
+
+def sock_addr(ctx, tag):
+    v6 = ctx.choose([(True, False), (True, True)], tag + " address is IPv6")
+    return Enum("SocketAddr", "V6" if v6 else "V4", 1 if v6 else 0, [Agg("addr", [z3.BitVec(tag + "_ip", 128), z3.BitVec(tag + "_port", 16)])])
+
+
+@model("SocketAddr::ip", doc="std::net")
+def _sa_ip(ctx, a, c):
+    sa = deref(ctx, a[0])
+    return Enum("IpAddr", sa.variant, sa.idx, [sa.f[0].f[0]])
+
+
+@model("SocketAddr::port", doc="std::net")
+def _sa_port(ctx, a, c):
+    return deref(ctx, a[0]).f[0].f[1]
+
+
+@model("SocketAddr::new", doc="std::net")
+def _sa_new(ctx, a, c):
+    ip = a[0]
+    return Enum("SocketAddr", ip.variant, ip.idx, [Agg("addr", [ip.f[0], a[1]])])
+
+
+@model("Ipv6Addr::to_ipv4_mapped", doc="std::net: Some(v4) for ::ffff:a.b.c.d")
+def _to_v4_mapped(ctx, a, c):
+    ip = deref(ctx, a[0])
+    if ctx.branch(z3.Extract(127, 32, ip) == z3.BitVecVal(0xFFFF, 96), "v4-mapped"):
+        return some(ip)
+    return none()
+
+
 def obligations(prog, src, tier, seed):
     obs = []
+    tcp_info(prog, obs)
     f_accept = prog.find_one(r"stream::duplex::<impl at src/stream/duplex\.rs:\d+:\d+: \d+:\d+>::poll_accept$")
     f_next = prog.find_one(r"stream::duplex::<impl at src/stream/duplex\.rs:\d+:\d+: \d+:\d+>::poll_next$")
     K = 2 if tier == "quick" else 3
@@ -95,3 +143,26 @@ def obligations(prog, src, tier, seed):
                     "cex_extract": lambda p, m: {"family": "duplex_cancelled_connect", "cancelled_first": sum(1 for q in p.ctx.reqs if not bool(m.eval(q.f[0].alive, model_completion=True))), "waiting": sum(1 for q in p.ctx.reqs if bool(m.eval(q.f[0].alive, model_completion=True)))},
                     "judge": lambda scn, out: out.get("result", "").startswith(("panic", "crash")) or out.get("accept") == "err" or (int(scn.get("waiting", 0)) > 0 and out.get("served") != "1")})
     return obs
+
+
+def tcp_info(prog, obs):
+    """the accept loop calls `stream.info()` on every accepted TCP stream (Acceptor::poll_accept ->
+    Stream::new, Serving::poll_once): it must not panic whatever state the peer left the socket in"""
+    f_info = prog.find_one(r"stream::tcp::<impl at src/stream/tcp\.rs:\d+:\d+: \d+:\d+>::info$")
+
+    def run(ctx):
+        remote = sock_addr(ctx, "accepted")
+        st = Agg("struct:TcpStream", [TokioTcpV(), some(remote)])
+        return ctx.exec_fn(f_info, [Ref(Cell(st, "stream"))])
+
+    def check(p):
+        if p.outcome == "panic":
+            return [("connection info of an accepted TCP stream panics inside the accept loop (" + str(p.value)[:70] + ")", False)]
+        return [("witness:reach", z3.BoolVal(True))]
+
+    obs.append({"name": "c09_tcp_stream_info_total", "family": "tcp_info", "funcs": ["<stream::tcp::TcpStream as HasConnectionInfo>::info", "stream::tcp::make_canonical"],
+                "bound": "server-side stream (remote address recorded at accept); getpeername() fails or succeeds (symbolic), getsockname() succeeds; IPv4 / IPv6 / v4-mapped addresses",
+                "doc": "info() of an accepted stream never panics, also for a connection the peer reset before it was accepted",
+                "run": run, "check": check, "crosscheck": False,
+                "cex_extract": lambda p, m: {"family": "tcp_reset_before_accept"},
+                "judge": lambda scn, out: out.get("result", "").startswith(("panic", "crash")) or out.get("server_alive") == "0" or int(out.get("served", "2")) < 2})
